@@ -162,7 +162,7 @@ def modelledCodes : List String :=
   ["0004", "0008", "0009", "000A", "1060", "10A0", "1260", "12B0", "1F09", "2309", "2349", "30C9", "2249", "22C9", "3150"]
 
 def modelledCodesB' : List String :=
-  ["0002", "0005", "0006", "000C", "0016", "0100", "1030", "1081", "1090", "1100", "12F0", "1300", "1F41", "1FC9", "2E04", "313F", "3B00"]
+  ["0002", "0005", "0006", "000C", "0016", "0100", "1030", "1081", "1090", "1100", "12F0", "1300", "1F41", "1FC9", "2E04", "313F", "3B00", "0418", "0404"]
 
 def isModelled (code : List Char) : Bool := inS (modelledCodes ++ modelledCodesB') code
 
@@ -409,6 +409,64 @@ def p3B00 (f : Frame) : Py Parsed := do
   let b ← hexToBool (p.drop 2)
   pure (.dict (cidx ++ [("actuator_sync", match b with | none => .null | some x => .bool x)]))
 
+/-- `hex_to_dts(v)`: the text "yy-mm-ddTHH:MM:SS" or None -/
+def dtsText (v : List Char) : Py (Option (List Char)) :=
+  (hexToDts v).map fun o => o.map fun d =>
+    toDecW 2 (d.year % 100) ++ '-' :: toDecW 2 d.month ++ '-' :: toDecW 2 d.day ++ 'T' :: toDecW 2 d.hour ++
+      ':' :: toDecW 2 d.minute ++ ':' :: toDecW 2 d.second
+
+def getOr (m : List (String × String)) (k : List Char) (dflt : String) : List Char :=
+  match lookupS m k with | some v => v.toList | none => dflt.toList
+
+/-- `parser_0418` (a fault-log entry; the warnings of its try/except block have no effect on the result) -/
+def p0418 (f : Frame) : Py Parsed := do
+  let p := f.payload
+  if f.verb = vRQ then pure (.dict [("log_idx", .str (slice p 4 6))]) else do
+    let ts ← dtsText (slice p 18 30)
+    match ts with
+    | none =>
+      pure (.dict ((if f.verb = vI then [("log_idx", Json.str (slice p 4 6))] else []) ++ [("log_entry", Json.null)]))
+    | some stamp =>
+      pyAssert (p.length = 44)
+      let cls := getOr Gen.faultDeviceClass (slice p 12 14) Gen.faultClassUnknown
+      let dom := slice p 10 12
+      let dev ← hexIdToDevId (p.drop 38)
+      let e0 : List (List Char) := [stamp, getOr Gen.faultState (slice p 2 4) Gen.faultStateUnknown,
+        getOr Gen.faultType (slice p 8 10) Gen.faultTypeUnknown]
+      let e1 := e0 ++ [if cls ≠ Gen.faultClassActuator.toList then cls
+        else if dom = Gen.domFC.toList then Gen.devRoleAPPName.toList
+        else if dom = Gen.domFA.toList then Gen.devRoleHTGName.toList
+        else if dom = Gen.domF9.toList then Gen.devRoleHT1Name.toList
+        else Gen.faultClassActuator.toList]
+      let e2 := if cls ≠ Gen.faultClassController.toList then e1 ++ [dom] else e1
+      let d := showDevId dev
+      let e3 := if d = s "00:000000" || d = s "00:000001" || d = s "00:000002" then e2 else e2 ++ [d]
+      let e4 := e3 ++ [slice p 6 8, slice p 14 18, slice p 30 38]
+      pure (.dict [("log_idx", .str (slice p 4 6)), ("log_entry", .arr (e4.map Json.str))])
+
+/-- `parser_0404` (a schedule fragment) -/
+def p0404 (f : Frame) : Py Parsed := do
+  let p := f.payload
+  pyAssert (slice p 4 6 = s "00" || slice p 4 6 = p.take 2)
+  let flen ← pyInt16 (slice p 8 10)
+  let fragLen := (p.drop 14).length
+  if flen * 2 ≠ fragLen && (f.verb ≠ vI || fragLen ≠ 0) then throw .pktInvalid
+  let num ← pyInt16 (slice p 10 12)
+  if f.verb = vRQ then
+    if slice p 12 14 = s "00" then pure (.dict [("frag_number", jNat num), ("total_frags", .null)])
+    else do
+      let tot ← pyInt16 (slice p 12 14)
+      pure (.dict [("frag_number", jNat num), ("total_frags", jNat tot)])
+  else if f.verb = vI then do
+    let tot ← pyInt16 (slice p 12 14)
+    pure (.dict [("frag_number", jNat num), ("total_frags", jNat tot),
+      ("frag_length", if slice p 8 10 = s "00" then .null else jNat flen)])
+  else if slice p 12 14 = Gen.domFF.toList then pure (.dict [("frag_number", jNat num), ("total_frags", .null)])
+  else do
+    let tot ← pyInt16 (slice p 12 14)
+    pure (.dict [("frag_number", jNat num), ("total_frags", jNat tot),
+      ("frag_length", if slice p 8 10 = s "FF" then .null else jNat flen), ("fragment", .str (p.drop 14))])
+
 def parserB (f : Frame) (arr : Bool) : Option (Py Parsed) :=
   let p := f.payload
   let code := f.code
@@ -448,6 +506,8 @@ def parserB (f : Frame) (arr : Bool) : Option (Py Parsed) :=
   else if code = s "2E04" then some (p2E04 f)
   else if code = s "313F" then some (p313F f)
   else if code = s "3B00" then some (p3B00 f)
+  else if code = s "0418" then some (p0418 f)
+  else if code = s "0404" then some (p0404 f)
   else none
 
 def modelledCodesB : List String :=
